@@ -37,7 +37,9 @@ var c09Clauses = []string{"p(1)", "p(2)", "p(3)", "p(_)", "p(1)", "(p(X) :- q(X)
 	// one clause with a disjunctive body (stored as one compiled clause per alternative)
 	"(p(X) :- (X = 5 ; X = 6))", "(q(X) :- (X = 3 ; p(4)))",
 	// clauses of arity 0: as terms the facts are all the same atom
-	"z", "z", "(z :- w(zbody))", "(z :- true)"}
+	"z", "z", "(z :- w(zbody))", "(z :- true)",
+	// disjunctive bodies made of arity-0 goals under heads of several sizes (compiled alternatives must not share storage)
+	"(p(g(a, _, _)) :- (z ; fail))", "(p(g(b, _, _)) :- (fail ; z))", "(p(h(a, b, c, d, e, f, g, _)) :- (fail ; z ; fail))", "(q(g(_, _, c)) :- (z ; z))"}
 
 type c09Gen struct {
 	r   *rand.Rand
@@ -159,7 +161,8 @@ func (c *c09) Generate(cx *Ctx, chunk int) []*Item {
 	}
 	base := term.MustProgram(c09Base)
 	initial := [][]string{{"p(1)", "p(2)", "p(3)"}, {"p(1)", "p(_)", "p(1)", "(p(X) :- q(X))", "q(1)", "q(2)"}, {}, {"p(2)", "(p(9) :- assertz(p(10)))", "(p(8) :- retract(p(1)))", "p(1)"}, {"q(1)", "(p(X) :- q(X))", "p(3)", "(p(7) :- asserta(q(7)))"},
-		{"z", "(z :- w(zbody))", "z", "p(1)"}}
+		{"z", "(z :- w(zbody))", "z", "p(1)"},
+		{"z", "(p(g(a, _, _)) :- (z ; fail))", "(p(g(b, _, _)) :- (fail ; z))", "(p(h(a, b, c, d, e, f, g, _)) :- (fail ; z ; fail))", "p(2)"}}
 	var metas []*DiffMeta
 	add := func(init []string, q string, family string, viaAssert bool) {
 		prog := append([]*term.Term{}, base...)
